@@ -92,6 +92,44 @@ def shape_wide_partial(r):
 SHAPES = [shape_hub, shape_ring, shape_multi, shape_shared, shape_diamond, shape_wide_partial]
 
 
+def wide_unlink(seed):
+    """A link table that grows wide (30-40 simultaneous records) and is emptied again -- fully,
+    or down to one record of multiplicity 2 and its mirror -- then probed (clone + drop: the
+    allocation-free fast path / a trace over what is left) and torn down.  Kept apart from the
+    other shapes: the judge's universe has 32-41 objects here."""
+    r = random.Random(seed)
+    out = []
+    for keep_pair in (False, True):
+        for unlink in ("unadopt", "die"):
+            b = B(); ids = b.new(41 if not keep_pair else 32); hub = ids[0]
+            if keep_pair:
+                b.edge(hub, ids[1], 2); b.edge(ids[1], hub)
+            wide = ids[2:] if keep_pair else ids[1:]
+            for s_ in wide:
+                b.edge(hub, s_)
+            b.ops += [op("CloneRoot", hub), op("DropRoot", hub)]
+            order = wide[:]
+            r.shuffle(order)
+            for s_ in order:
+                if unlink == "unadopt":
+                    b.ops += [op("TakeUnadopt", hub, s_), op("DropRoot", s_), op("DropRoot", s_)]
+                else:
+                    # the adopted child dies: its outside handle first, then the stored one
+                    b.ops += [op("DropRoot", s_), op("TakeUnadopt", hub, s_), op("DropRoot", s_)]
+            # probe: every handle cloned and dropped once, twice for the hub
+            for x in [hub, hub] + ([ids[1]] if keep_pair else []):
+                b.ops += [op("CloneRoot", x), op("DropRoot", x)]
+            b.ops += [op("Downgrade", hub), op("Upgrade", hub), op("DropRoot", hub)]
+            if keep_pair:
+                # the pair (hub adopts 1 twice, 1 adopts hub) is orphaned now: it must be collected
+                b.ops += [op("Downgrade", ids[1]), op("DropRoot", ids[1]), op("DropRoot", hub), op("Upgrade", ids[1]), op("Upgrade", hub)]
+            for o_ in ids:
+                b.ops += [op("DropRoot", o_)] * 2
+            b.ops += [op("WeakDrop", hub), op("WeakDrop", ids[1])]
+            out.append(b.ops)
+    return out
+
+
 def teardown(b, ids, r, keep):
     """drop the roots in random order; `keep`: id whose root handle is dropped last, after a
     clone of it was used (Upgrade of Weak handles in between)"""
